@@ -1109,7 +1109,10 @@ fn extract<'tcx>(tcx: TyCtxt<'tcx>, unit: &str, out_dir: &str) {
                     ("ty", s(cx.ty(cty))),
                     ("span", s(cx.sp(tcx.def_span(d)))),
                 ];
-                if (cty.is_integral() || cty.is_bool()) && tcx.generics_of(d).is_empty() && matches!(dk, DefKind::Const { .. }) {
+                let in_plain_impl = matches!(dk, DefKind::AssocConst { .. })
+                    && matches!(tcx.def_kind(tcx.parent(d)), DefKind::Impl { .. })
+                    && tcx.generics_of(tcx.parent(d)).count() == 0;
+                if (cty.is_integral() || cty.is_bool()) && tcx.generics_of(d).is_empty() && (matches!(dk, DefKind::Const { .. }) || in_plain_impl) {
                     if let Ok(val) = tcx.const_eval_poly(d) {
                         if let Some(sc) = val.try_to_scalar_int() {
                             let size = sc.size();
